@@ -16,7 +16,7 @@ SHIMS = {
     'lat1-clone': dict(pattern=r'LAT1_MAP\.clone\(\)', replace=r'lat1_map_clone()', spec='r == lat1_map() (uninterpreted table; contents proved by Kani)'),
     'vt100-clone': dict(pattern=r'VT100_MAP\.clone\(\)', replace=r'vt100_map_clone()', spec='r == vt100_map() (uninterpreted table; contents proved by Kani)'),
     # self.tabstops.extend((8..self.columns).step_by(8))
-    'hs-extend-step8': dict(pattern=r'self\.tabstops\.extend\(\(8\.\.self\.columns\)\.step_by\(8\)\);', replace=r'hs_extend_step8(&mut self.tabstops, self.columns);',
+    'hs-extend-step8': dict(pattern=r'self\.tabstops\.extend\(\(8\.\.([^()]+?)\)\.step_by\(8\)\);', replace=r'hs_extend_step8(&mut self.tabstops, \1);',
                             spec="S' = S u {8k : 8 <= 8k < n}"),
     # tab(): `let mut vec: Vec<_> = S.iter().collect(); vec.sort();`  -> call-out returning the sorted references
     'collect-sort': dict(pattern=r'let mut vec: Vec<_> = self\.tabstops\.iter\(\)\.collect\(\);\s*(?://[^\n]*\n\s*)*vec\.sort\(\);',
